@@ -40,7 +40,8 @@ fn shape(p: &mut Profile, r: &mut Rng) {
 
 fn claim(viol: &Violation, op: &Op, _pre: &World, _info: &StepInfo) -> Option<Violation> {
     if let Op::CreateMissingPrefixes { .. } = op {
-        if viol.property == "C05" || viol.property == "C04" {
+        // (what an accessor says about the tree is not the tree: no claim for those)
+        if (viol.property == "C05" || viol.property == "C04") && viol.class != "accessor-disagrees" {
             return Some(v("repair-changed-content", format!("create_missing_prefixes: {}", viol.msg)));
         }
         if viol.property == "C06" && viol.class == "panic" {
@@ -148,12 +149,28 @@ impl xot::output::Normalizer for NameHostileNormalizer {
 /// clause 1: serialisation is an error or resolves to the model's names; `normalized` selects the
 /// entry point that takes a normalizer
 fn check_serialisation(w: &World, root: Lid, stats: &mut Stats, normalized: bool) -> Result<Option<String>, Violation> {
+    check_serialisation_route(w, root, stats, if normalized { 1 } else { 0 })
+}
+
+/// route 0: to_string; 1: with a normalizer; 2: pretty-printed (indentation is whitespace only:
+/// the names must come out the same)
+fn check_serialisation_route(w: &World, root: Lid, stats: &mut Stats, route: u8) -> Result<Option<String>, Violation> {
     let h = w.h(root);
-    let produced = if normalized {
-        stats.inc("probe/c10_serialisations_with_normalizer");
-        real_call(|| w.xot.serialize_xml_string_with_normalizer(Default::default(), h, NameHostileNormalizer))
-    } else {
-        real_call(|| w.xot.to_string(h))
+    let produced = match route {
+        1 => {
+            stats.inc("probe/c10_serialisations_with_normalizer");
+            real_call(|| w.xot.serialize_xml_string_with_normalizer(Default::default(), h, NameHostileNormalizer))
+        }
+        2 => {
+            stats.inc("probe/c10_serialisations_pretty");
+            real_call(|| {
+                w.xot.serialize_xml_string(
+                    xot::output::xml::Parameters { indentation: Some(Default::default()), ..Default::default() },
+                    h,
+                )
+            })
+        }
+        _ => real_call(|| w.xot.to_string(h)),
     };
     let text = match produced {
         Ok(Ok(t)) => t,
@@ -161,7 +178,9 @@ fn check_serialisation(w: &World, root: Lid, stats: &mut Stats, normalized: bool
             stats.inc("probe/c10_serialisation_refused");
             return Ok(None);
         }
-        Err(_) => return Ok(None), // e.g. an unattached text node: not this property's subject
+        // "fails with an error or produces text": unwinding is neither (only documents and elements
+        // are serialised here; the parentless text node of O3 cannot be the cause)
+        Err(_) => return Err(v("name-meaning-changed", format!("serialisation of {:?} (route {}) unwinds instead of returning text or an error", root, route))),
     };
     stats.inc("probe/c10_serialisations_resolved");
     // lexical well-formedness of the text (escaping of content and of namespace URIs) is the
@@ -317,6 +336,9 @@ fn extra(pre: &World, post: &mut World, t: &TraceOp, info: &StepInfo, stats: &mu
         }
         // the entry point with a user-supplied normalizer: names and namespace names are not its business
         if let Err(e) = check_serialisation(post, *r, stats, true) {
+            return vec![e];
+        }
+        if let Err(e) = check_serialisation_route(post, *r, stats, 2) {
             return vec![e];
         }
     }
